@@ -362,32 +362,91 @@ func c17Socket(base string, res *ev.Result) {
 			res.Seen(fmt.Sprintf("socketdir|umask%03o|depth%d", umask, depth))
 		}
 	}
-	// external connections disabled
-	res.Eval()
-	root := filepath.Join(base, "disabled")
-	os.MkdirAll(root, 0o755)
-	sock := filepath.Join(root, "x", "nri.sock")
-	rt, err := adaptation.New("rt", "1", func(ctx context.Context, cb adaptation.SyncCB) error { _, err := cb(ctx, nil, nil); return err },
-		func(context.Context, []*api.ContainerUpdate) ([]*api.ContainerUpdate, error) { return nil, nil },
-		adaptation.WithSocketPath(sock), adaptation.WithPluginPath(filepath.Join(root, "none")), adaptation.WithPluginConfigPath(filepath.Join(root, "none")),
-		adaptation.WithDisabledExternalConnections())
-	if err == nil {
-		err = rt.Start()
+	// external connections disabled, the option given after or before the socket path
+	for _, order := range []string{"path-then-disable", "disable-then-path", "disable-only"} {
+		res.Eval()
+		root := filepath.Join(base, "disabled-"+order)
+		os.MkdirAll(root, 0o755)
+		sock := filepath.Join(root, "x", "nri.sock")
+		opts := []adaptation.Option{adaptation.WithPluginPath(filepath.Join(root, "none")), adaptation.WithPluginConfigPath(filepath.Join(root, "none"))}
+		switch order {
+		case "path-then-disable":
+			opts = append(opts, adaptation.WithSocketPath(sock), adaptation.WithDisabledExternalConnections())
+		case "disable-then-path":
+			opts = append(opts, adaptation.WithDisabledExternalConnections(), adaptation.WithSocketPath(sock))
+		default:
+			sock = adaptation.DefaultSocketPath
+			if _, err := os.Stat(sock); err == nil {
+				continue // something else serves the default path on this machine
+			}
+			opts = append(opts, adaptation.WithDisabledExternalConnections())
+		}
+		rt, err := adaptation.New("rt", "1", func(ctx context.Context, cb adaptation.SyncCB) error { _, err := cb(ctx, nil, nil); return err },
+			func(context.Context, []*api.ContainerUpdate) ([]*api.ContainerUpdate, error) { return nil, nil }, opts...)
+		if err == nil {
+			err = rt.Start()
+		}
+		what := map[string]any{"scenario": "external-connections-disabled", "options": order}
+		if err != nil {
+			res.Violate("C17/socket-start-failed", fmt.Sprintf("Start failed: %v", err), what)
+			return
+		}
+		if _, err := os.Stat(sock); err == nil {
+			res.Violate("C17/socket-served-when-disabled", "external connections are disabled, yet the socket file exists", what)
+		}
+		if c, err := net.Dial("unix", sock); err == nil {
+			c.Close()
+			res.Violate("C17/socket-served-when-disabled", "external connections are disabled, yet a connection was accepted", what)
+		}
+		rt.Stop()
+		res.Seen("external-connections-disabled|" + order)
 	}
-	what := map[string]any{"scenario": "external-connections-disabled"}
+}
+
+// c17Late: a peer that connects in time but registers long after the registration timeout (which is shorter
+// than the request timeout here) never becomes active, and a well-formed plugin after it does.
+func c17Late(base string, res *ev.Result) {
+	const reg, req = 400 * time.Millisecond, 5 * time.Second
+	adaptation.SetPluginRegistrationTimeout(reg)
+	adaptation.SetPluginRequestTimeout(req)
+	defer adaptation.SetPluginRegistrationTimeout(c17RegTimeout)
+	defer adaptation.SetPluginRequestTimeout(c17ReqTimeout)
+	what := map[string]any{"scenario": "late registration", "registration_timeout_ms": reg.Milliseconds(), "request_timeout_ms": req.Milliseconds(), "registers_after_ms": 4 * reg.Milliseconds()}
+	res.Eval()
+	os.MkdirAll(base, 0o755)
+	rt, err := rig.NewRuntime(base)
 	if err != nil {
-		res.Violate("C17/socket-start-failed", fmt.Sprintf("Start failed: %v", err), what)
+		res.Note("runtime: %v", err)
 		return
 	}
-	if _, err := os.Stat(sock); err == nil {
-		res.Violate("C17/socket-served-when-disabled", "external connections are disabled, yet the socket file exists", what)
+	if err := rt.Start(); err != nil {
+		res.Note("start: %v", err)
+		return
 	}
-	if c, err := net.Dial("unix", sock); err == nil {
-		c.Close()
-		res.Violate("C17/socket-served-when-disabled", "external connections are disabled, yet a connection was accepted", what)
+	defer rt.Stop()
+	rp := rig.NewRawPlugin("late", "20", 0)
+	if err := rp.Dial(rt.Sock, nil); err != nil {
+		res.Note("late: dial: %v", err)
+		return
 	}
-	rt.Stop()
-	res.Seen("external-connections-disabled")
+	defer rp.Close()
+	time.Sleep(4 * reg)
+	rp.Register(2 * time.Second) // whatever it returns
+	good := rig.NewPlugin("good", "50", 0, rig.Handlers{})
+	if err := good.Connect(rt.Sock); err != nil || !good.WaitSynced(10*time.Second) {
+		res.Violate("C17/good-plugin-rejected", fmt.Sprintf("a well-formed plugin after a late one failed to start: %v", err), what)
+		return
+	}
+	defer good.StopStub()
+	for i := 0; i < 3; i++ {
+		b := rt.A.BlockPluginSync()
+		rt.A.RunPodSandbox(context.Background(), &api.StateChangeEvent{Pod: &api.PodSandbox{Id: fmt.Sprintf("late-probe%d", i)}})
+		b.Unblock()
+	}
+	if syncs, reqs := rp.SyncChunks.Load(), rp.Requests.Load(); syncs > 0 || reqs > 0 {
+		res.Violate("C17/ill-formed-activated/late", fmt.Sprintf("a plugin that registered %v after connecting (registration timeout %v) must not become active, yet it received %d synchronization messages and %d events", 4*reg, reg, syncs, reqs), what)
+	}
+	res.Seen("reject|late-registration")
 }
 
 func runC17(c *ev.ChildEnv, res *ev.Result) {
@@ -399,6 +458,7 @@ func runC17(c *ev.ChildEnv, res *ev.Result) {
 	if c.Batch == 0 {
 		c.WAL("socket scenarios")
 		c17Socket(filepath.Join(c.Dir, "sock"), res)
+		c17Late(filepath.Join(c.Dir, "late"), res)
 	}
 	c.WAL("running registration cases")
 	sem := make(chan struct{}, 8)
